@@ -25,6 +25,8 @@ CLAIMED["C06"] = ("reference-model monitor: cholesky / root_decomposition / root
                   "runtime monitoring: reconstruction-identity monitor on the dense denotation, hook events selecting the Lanczos oracle")
 CLAIMED["C19"] = ("outcome monitor with torch as the judge: for every class x public operation taking a second operand or an index, bad operands (wrong / size-1 inner dimension, extra or missing dimensions, non-broadcastable batches, out-of-range int / tensor / list indices, square-only operations on rectangular operators) are first run against the dense matrix; only those torch rejects are judged, and the library must raise at the call or at evaluation of a lazy result",
                   "runtime monitoring: raise/return outcome monitor against torch's own verdict on the densified operand")
+CLAIMED["C15"] = ("dispatch monitor: the two registration tables are read from the module at run time and enumerated completely x every operator class x operand kinds x both operand orders (torch.f(op, ...), torch.f(tensor, op), tensor <binop> op); each result is compared with op.method(...) and with torch.f on dense operands (canonical forms for factorizations); a sample of ~45 unregistered torch functions must raise NotImplementedError",
+                  "runtime monitoring: exhaustive enumeration of the dispatch tables x class grid with a dense-reference oracle per call")
 PENDING = {}
 def main():
     hooks_commits = []
